@@ -70,6 +70,8 @@ def case_log_basic(H, g):
         H.prove('%s/path%d/|phi|<=pi' % (name, pn), hyp, T.dot(ph, ph) <= PI * PI, replay=replay, key=key, timeout=to)
         away = [z3.Or(q[3] > z3.RealVal('1/1000'), q[3] < -z3.RealVal('1/1000'))]
         fams = quat_log_families(ctx)
+        if g != 'SO3' and len(fams) >= 2 and all(f['half'] is not None for f in fams) and H.path_infeasible('%s/path%d' % (name, pn), hyp):
+            continue
         if g != 'SO3' and len(fams) >= 2 and all(f['half'] is not None for f in fams):
             # generic branch of all three logarithms (X, negated quaternion, inverse): per hemisphere, the lemma chain of every family and
             # then rational certificates modulo the lemma conclusions
@@ -136,6 +138,8 @@ def case_exp_log(H, g):
         staged = (not small) and quat_log_families(ctx)
         if H.quick and g != 'SO3' and not staged:
             continue          # small-angle / near-pi branches of the larger groups: thorough tier (SO3 covers them in quick)
+        if staged and H.path_infeasible('%s/path%d' % (name, pn), hyp):
+            continue
         if staged:
             # generic branch of the quaternion logarithm: staged proof per hemisphere.  Lemmas (each proved, in order):
             # |phi| = 2|atan(|v|/w)|, sin(|phi|/2) = |v|, cos(|phi|/2) = |w| (and the full-angle pair); then the goals.
